@@ -1014,8 +1014,40 @@ impl<'w> Gen<'w> {
     // batteries (evaluated in forks of the current state)
     // -----------------------------------------------------------------------------------
 
+    /// every exit message by the record's own holder in every lifecycle state, now and after every
+    /// expiration has passed (e.g. DeleteListing of a purchased listing by its buyer must stay refused)
+    pub fn battery_owner_exits(&mut self) {
+        let cap = if self.thorough { 10 } else { 4 };
+        for round in 0..2 {
+            if round == 1 {
+                let now = self.h.sim.now().nanos();
+                let max_exp = self.h.sim.listings().iter().filter_map(|p| p.1.expiration_time).map(|t| t.nanos()).max().unwrap_or(now);
+                self.push();
+                if max_exp >= now {
+                    self.step(&Op::ADV { d_ns: max_exp - now + 1, d_height: 3 });
+                }
+            }
+            let ls = self.h.sim.listings();
+            // closed (purchased) listings first: they are the interesting ones
+            let mut order: Vec<&((cosmwasm_std::Addr, u64), Listing)> = ls.iter().collect();
+            order.sort_by_key(|p| if p.1.status == Status::Closed { 0 } else { 1 });
+            for (_, l) in order.into_iter().take(cap) {
+                let o = l.creator.to_string();
+                self.probe(&x(&o, vec![], MMsg::DL { id: l.id }));
+                self.probe(&x(&o, vec![], MMsg::WP { id: l.id }));
+                self.probe(&x(&o, vec![], MMsg::FI { id: l.id, seconds: 600 }));
+                self.probe(&x(&o, vec![], MMsg::CA { id: l.id, ask: RawGBal::natives(vec![coin(1, JUNO_DENOM)]) }));
+                self.probe(&x(&o, vec![coin(5, JUNO_DENOM)], MMsg::AL { id: l.id }));
+            }
+            if round == 1 {
+                self.pop();
+            }
+        }
+    }
+
     pub fn batteries(&mut self) {
         self.battery_queries();
+        self.battery_owner_exits();
         self.battery_buy_matrix();
         self.battery_nonowner();
         self.battery_funds();
